@@ -92,15 +92,21 @@ fn replay(cons: &Consensus, chain: &[BlockView], tag: &str, label: &Value, repor
 }
 
 fn replay_with(cons: &Consensus, chain: &[BlockView], tag: &str, label: &Value, report: &mut Report, primary_epoch: u64) {
+    let dynamic = !cons.permanent_difficulty();
     let window = (cons.tx_proposal_window().closest(), cons.tx_proposal_window().farthest());
     let delay = cons.finalization_delay_length() as usize;
     let ratio = (cons.proposer_reward_ratio().numer(), cons.proposer_reward_ratio().denom());
     let secondary_epoch = cons.secondary_epoch_reward().as_u64();
     let mut r = Replay { blocks: vec![], live: HashMap::new(), burned: 0, base: 0 };
     for (n, b) in chain.iter().enumerate() {
-        let index = n as u64 % EPOCH_LEN;
-        let primary = primary_epoch / EPOCH_LEN + if index < primary_epoch % EPOCH_LEN { 1 } else { 0 };
-        let g2 = secondary_epoch / EPOCH_LEN + if index < secondary_epoch % EPOCH_LEN { 1 } else { 0 };
+        // position of the block in its epoch (the header's epoch field is judged by C03 / C07); in the
+        // flat worlds every epoch has EPOCH_LEN blocks, in the dynamic world the length doubles
+        let (index, len) = if n == 0 { (0, cons.genesis_epoch_ext().length()) } else { (b.epoch().index(), b.epoch().length()) };
+        if !dynamic && (len != EPOCH_LEN || index != n as u64 % EPOCH_LEN) {
+            report.violation("reference/epoch-shape", format!("{tag}: block {n} claims epoch position {index}/{len} in the flat world"), label.clone());
+        }
+        let primary = primary_epoch / len + if index < primary_epoch % len { 1 } else { 0 };
+        let g2 = secondary_epoch / len + if index < secondary_epoch % len { 1 } else { 0 };
         // transactions: fees and occupied capacity movements
         let mut commits = vec![];
         let mut added = 0u64;
@@ -406,6 +412,9 @@ pub fn run(ctx: &Ctx) -> Report {
     if let Err(e) = go() {
         report.machinery_errors.push(e);
     }
+    if let Err(e) = dynamic_family(ctx, &mut report) {
+        report.machinery_errors.push(format!("dynamic-epoch family: {e}"));
+    }
     if let Err(e) = unissuable_family(ctx, &mut report) {
         report.machinery_errors.push(format!("unissuable-reward family: {e}"));
     }
@@ -487,5 +496,56 @@ fn unissuable_family(ctx: &Ctx, report: &mut Report) -> Result<(), String> {
         replay_with(&cons, &chain, "unissuable", &json!({"chain": "unissuable-reward", "unissuable_block": big_at}), report, SMALL);
         report.outcomes.insert(fp(&("unissuable", big_at)));
     }
+    Ok(())
+}
+
+/// Epochs of different lengths: the dynamic-difficulty world (genesis epoch of 4 blocks, then 8, 16:
+/// without uncles the length doubles), a primary and a secondary epoch reward that leave different
+/// remainders over 4, 8 and 16 blocks.  The reward of the first block of an epoch is the one place
+/// where "the epoch of the block", "the epoch of its parent" and "the epoch of the block that pays
+/// it" are three different things; rewards are paid 5 blocks later, so the chain runs to block 36.
+fn dynamic_family(ctx: &Ctx, report: &mut Report) -> Result<(), String> {
+    let mut w = WorldOpts::default();
+    w.primary_epoch_reward = Some(PRIMARY);
+    w.permanent_difficulty = false;
+    w.genesis_compact_target = ckb_types::utilities::difficulty_to_compact(ckb_types::U256::from(1u64 << 24));
+    let cons = consensus(&w);
+    set_time(time_for_height(80));
+    let mut forge = Forge::new(&ctx.scratch.join("c06-dyn-forge"), &cons)?;
+    let g = genesis_cells(&cons);
+    let t1 = fee_tx(&cons, &g, 0, 1_000_003, 1);
+    let t2 = fee_tx(&cons, &g, 1, 2_500_007, 2);
+    let t3 = fee_tx(&cons, &g, 2, 777_777, 1);
+    let t4 = fee_tx(&cons, &g, 3, 50_000_001, 3);
+    let id = |t: &TransactionView| t.proposal_short_id();
+    let mut chain = vec![cons.genesis_block().clone()];
+    let mut parent = cons.genesis_hash();
+    let mut lens = std::collections::BTreeSet::new();
+    for n in 1..=36u64 {
+        let mut spec = BlockSpec { miner: (n % 5) as u8 + 1, ..Default::default() };
+        match n {
+            // fees whose committer / proposer shares are paid across the epoch boundaries at 4, 12, 28
+            2 => spec.proposals = vec![id(&t1)],
+            4 => spec.txs = vec![t1.clone()],
+            9 => spec.proposals = vec![id(&t2), id(&t3)],
+            12 => spec.txs = vec![t2.clone()],
+            13 => spec.txs = vec![t3.clone()],
+            26 => spec.proposals = vec![id(&t4)],
+            28 => spec.txs = vec![t4.clone()],
+            _ => {}
+        }
+        let b = forge.build_on(&parent, &spec)?;
+        lens.insert(b.epoch().length());
+        parent = b.hash();
+        chain.push(b);
+    }
+    forge.goto(&parent)?;
+    if lens.len() < 3 {
+        return Err(format!("the dynamic world did not produce epochs of three different lengths: {lens:?}"));
+    }
+    replay_with(&cons, &chain, "dynamic", &json!({"chain": "dynamic-epoch-lengths", "epoch_lengths": lens}), report, PRIMARY);
+    report.transitions += 36;
+    report.outcomes.insert(fp(&"dynamic"));
+    report.count("dynamic_epoch_chain_blocks", 36);
     Ok(())
 }
